@@ -34,6 +34,7 @@ extern struct app_prog app_prog;
 extern int app_load(const char *path);
 extern void app_process(lp_id_t me, simtime_t now, unsigned type, const void *pl, unsigned size, void *st);
 extern bool app_can_end(lp_id_t me, const void *st);
+extern const struct app_state *app_state_of(lp_id_t me, const void *st);   /* the LP state block, also when the LP never called SetState() */
 /* final (acc, cnt) per LP recorded at LP_FINI */
 extern uint64_t *app_final_acc, *app_final_cnt, *app_init_calls, *app_fini_calls;
 /* optional dispatch log (serial runs): called for every non-init, non-fini dispatch */
